@@ -13,6 +13,7 @@ import (
 	"github.com/nspcc-dev/neo-go/pkg/core/mpt"
 	"github.com/nspcc-dev/neo-go/pkg/core/state"
 	"github.com/nspcc-dev/neo-go/pkg/core/storage"
+	"github.com/nspcc-dev/neo-go/pkg/core/transaction"
 	"github.com/nspcc-dev/neo-go/pkg/crypto/keys"
 	"github.com/nspcc-dev/neo-go/pkg/io"
 	"github.com/nspcc-dev/neo-go/pkg/util"
@@ -47,6 +48,7 @@ type trieT struct {
 	List  []util.Uint256                  // pre-order, distinct
 	Sub   map[util.Uint256][]util.Uint256 // pre-order of the subtree (what a peer answers to a request of the hash)
 	Multi int                             // hashes reachable along more than one path
+	MultiInner int                        // ... of them branch/extension nodes
 }
 
 func (t *trieT) closure(set []util.Uint256) int {
@@ -79,6 +81,7 @@ type srcT struct {
 	obs    []*chainx.Obs          // i -> height i+1 (full observation of the reference replica)
 	lite   []map[string]string    // height -> observation without execution results
 	stor   []map[string]string    // height -> full contract storage
+	mptd   []string               // height -> digest/count of the key-value pairs enumerated through the state trie
 	tries  map[uint32]*trieT      // per sync point
 	items  map[uint32][]storage.KeyValue
 	alien  map[uint32][][]byte // per sync point: valid nodes of the trie at another height, absent from this one
@@ -108,6 +111,25 @@ func digestMap(m map[string]string) string {
 		h.Write([]byte{1})
 	}
 	return hex.EncodeToString(h.Sum(nil))[:24]
+}
+
+// mptDigest enumerates all key-value pairs reachable from the node's current
+// local state root through the trie stored in its database.
+func mptDigest(n *chainx.Node) (d string, err error) {
+	err = chainx.Try(func() {
+		sm := n.BC.GetStateModule()
+		h := sha256.New()
+		cnt := 0
+		sm.SeekStates(sm.CurrentLocalStateRoot(), nil, func(k, v []byte) bool {
+			h.Write([]byte{byte(len(k)), byte(len(v)), byte(len(v) >> 8)})
+			h.Write(k)
+			h.Write(v)
+			cnt++
+			return true
+		})
+		d = fmt.Sprintf("%x/%d", h.Sum(nil)[:10], cnt)
+	})
+	return
 }
 
 // liteObs is chainx.Observe without the execution results of the current
@@ -222,6 +244,52 @@ func decodeNode(b []byte) (mpt.Node, error) {
 	return n.Node, nil
 }
 
+// extraTpls are block templates of this check: they make the storage of two
+// deployed contracts identical ({a: 1} in UB and in UC), so that an inner trie
+// node (not only a leaf) is reachable along two paths.
+func extraTpls() []chainx.Tpl {
+	return []chainx.Tpl{
+		{Name: "uc-a1", Build: func(w *chainx.World) ([]*transaction.Transaction, error) {
+			tx, err := w.URun(2, w.UC, []any{[]any{chainx.OpPut, []byte("a"), []byte("1")}})
+			if err != nil {
+				return nil, err
+			}
+			return []*transaction.Transaction{tx}, nil
+		}},
+		{Name: "ub-a1", Build: func(w *chainx.World) ([]*transaction.Transaction, error) {
+			tx, err := w.URun(1, w.UB, []any{[]any{chainx.OpPut, []byte("a"), []byte("1")}})
+			if err != nil {
+				return nil, err
+			}
+			return []*transaction.Transaction{tx}, nil
+		}},
+		{Name: "uc-a2", Build: func(w *chainx.World) ([]*transaction.Transaction, error) {
+			tx, err := w.URun(2, w.UC, []any{[]any{chainx.OpPut, []byte("a"), []byte("2")}})
+			if err != nil {
+				return nil, err
+			}
+			return []*transaction.Transaction{tx}, nil
+		}},
+	}
+}
+
+func tplByName(names ...string) []chainx.Tpl {
+	var out []chainx.Tpl
+	for _, n := range names {
+		found := false
+		for _, t := range extraTpls() {
+			if t.Name == n {
+				out = append(out, t)
+				found = true
+			}
+		}
+		if !found {
+			out = append(out, chainx.TplByName(n)...)
+		}
+	}
+	return out
+}
+
 // buildSource builds the chain (preamble + the named templates), replays it on
 // a second reference replica to record the observation at every height, and
 // extracts the state tries / storage item lists of the given sync points.
@@ -235,7 +303,7 @@ func buildSource(f famT, names []string, points []uint32) (*srcT, error) {
 			uniq = append(uniq, n)
 		}
 	}
-	sc, err := chainx.NewScenario(s.cf, f.Pad, chainx.TplByName(uniq...))
+	sc, err := chainx.NewScenario(s.cf, f.Pad, tplByName(uniq...))
 	if err != nil {
 		return nil, fmt.Errorf("preamble: %w", err)
 	}
@@ -263,6 +331,11 @@ func buildSource(f famT, names []string, points []uint32) (*srcT, error) {
 	}
 	s.lite = append(s.lite, lo)
 	s.stor = append(s.stor, st)
+	md, err := mptDigest(src)
+	if err != nil {
+		return nil, err
+	}
+	s.mptd = append(s.mptd, md)
 	for i, bb := range s.blocks {
 		if err := src.AddBytes(bb); err != nil {
 			return nil, fmt.Errorf("source replay %d: %w", i+1, err)
@@ -276,6 +349,11 @@ func buildSource(f famT, names []string, points []uint32) (*srcT, error) {
 		}
 		s.lite = append(s.lite, lo)
 		s.stor = append(s.stor, st)
+		md, err := mptDigest(src)
+		if err != nil {
+			return nil, err
+		}
+		s.mptd = append(s.mptd, md)
 	}
 	mod := src.BC.GetStateSyncModule()
 	all := map[uint32]map[util.Uint256][]byte{}
@@ -311,9 +389,12 @@ func buildSource(f famT, names []string, points []uint32) (*srcT, error) {
 		if err != nil {
 			return nil, err
 		}
-		for _, c := range seenTwice {
+		for hh, c := range seenTwice {
 			if c > 1 {
 				t.Multi++
+				if n, err := decodeNode(t.Nodes[hh]); err == nil && len(mpt.GetChildrenPaths(nil, n)) > 0 {
+					t.MultiInner++
+				}
 			}
 		}
 		for hh, b := range t.Nodes {
